@@ -4,6 +4,7 @@ them on the library and records, (4) TLC validates the recorded traces."""
 from __future__ import annotations
 
 import copy
+import itertools
 import json
 import random
 
@@ -278,25 +279,68 @@ def _world_and_doms(rng, nv, quick, cover_p=0.3):
 
 
 def _partial_binding_programs(run, rng, quick, qc, add):
-    """Grammar G3w: and_/or_ trees of four distinct leaves over the variable sets {1,2}, {1,3}, {1}, {1,3}.  Returns the
-    programs for the caller's ordinary worlds; the conjunctions of two disjunctions are handed to `add` on worlds over two
-    int values with domains of three and more members as well: there the conjunction's cache receives results under a
-    partial binding (variable 3 unbound) between results under full bindings, and which of them a later lookup matches
+    """Grammar G3w: and_/or_ trees of distinct leaves over the variable sets {1,2}, {1,3}, {1}, {1,3} (and, in the
+    conjunctions of two disjunctions, {2,3}, {2}, {3} and {1,2} once more).  Returns the programs for the caller's ordinary worlds; the
+    conjunctions of two disjunctions are handed to `add` on worlds over two int values with domains of up to four members
+    as well: there an operator's cache receives results under a partial binding between results under full bindings
+    (and results that are duplicates under one projection but not under a later one), and what a later lookup is served
     depends on the enumeration order of the data."""
     part = run.export("GenQuery", "G3w-bfs", "PROG", constants=dict(G="G3w", NV=3, LeafLimit=4, MaxLeaves=4, MaxNot=0,
                                                                   NeedNot=False), invariants=("Export", "WellFormed"))
     shaped = [p for p in part if p["cond"]["k"] == "and" and p["cond"]["l"]["k"] == "or" and p["cond"]["r"]["k"] == "or"]
-    for p in shaped:
+    # the same shape over the eight-leaf vocabulary: every ordered choice of four distinct leaves (grammar G3ws, which C05
+    # model-checks as a whole)
+    single = run.export("GenQuery", "G3w-leaves", "PROG", constants=dict(G="G3w", NV=3, LeafLimit=8, MaxLeaves=1, MaxNot=0,
+                                                                       NeedNot=False), count=False)
+    leaves, heads = [], []
+    for p in single:
+        if p["cond"] not in leaves:
+            leaves.append(p["cond"])
+        h = {k: v for k, v in p.items() if k != "cond"}
+        if h not in heads:
+            heads.append(h)
+    wide = []
+    for a, b, c, d in itertools.permutations(leaves, 4):
+        if all(x in leaves[:4] for x in (a, b, c, d)):
+            continue                              # already in `shaped`
+        cond = {"k": "and", "l": {"k": "or", "l": a, "r": b, "form": "fn"}, "r": {"k": "or", "l": c, "r": d, "form": "fn"}, "form": "fn"}
+        wide += [dict(h, cond=cond) for h in heads]
+    # the counterexamples TLC derived from the design (MechCheck on G3w with a deviation switch set to the code before a
+    # repair), on the reference world and the domain choices of MechCheck: random data meets them about once in 4 000
+    # cases, so they are replayed as they are - (leaves of the two disjunctions, selection, why)
+    witnesses = [((0, 1, 2, 3), 3, "a row twice: (x, y) in the conjunction's cache under y = value and under y = All"),
+                 ((4, 1, 5, 2), 2, "a row lost: a right-branch result dropped as a duplicate was not stored, the cache claimed to know all"),
+                 ((5, 2, 3, 1), 2, "a row lost: the right disjunction dropped results that differ in a variable only one branch of the left one binds"),
+                 ((6, 1, 5, 2), 1, "the same with a left disjunction over {3} / {1,3}, one variable selected"),
+                 ((6, 1, 5, 7), 2, "the same, right disjunction over {2} / {1,2}")]
+    ref_nm = ((0, 1), (1, 1), (2, 0), (1, 2))
+    for (a, b, c, d), nsel, _why in witnesses:
+        cond = {"k": "and", "l": {"k": "or", "l": leaves[a], "r": leaves[b], "form": "fn"},
+                "r": {"k": "or", "l": leaves[c], "r": leaves[d], "form": "fn"}, "form": "fn"}
+        head = next(h for h in heads if len(h["sel"]) == nsel)
+        for d1, d2 in itertools.product(([1, 2, 3, 4], [3, 1], [2, 4], [4, 2]), ([3, 1], [2, 4, 1], [4], [1, 4], [3])):
+            W = datasets.random_world(rng, 4)
+            for o, (n_, m_) in zip(W["objs"], ref_nm):
+                o["f"]["n"], o["f"]["m"] = datasets.iv(n_), datasets.iv(m_)
+            for d3 in sorted({tuple(d2), (1, 4), (2, 4, 1), (2, 1)}):
+                add((W, mk_query(dict(head, cond=cond), [d1, d2, list(d3)], declare="random")))
+    if quick:
+        wide = rng.sample(wide, 200)
+    for p in shaped + wide:
         # a row returned twice shows only where every variable is selected
-        for _ in range((30 if quick else 120) if len(p["sel"]) == 3 else (4 if quick else 20)):
+        reps = (30 if quick else 120) if len(p["sel"]) == 3 else (4 if quick else 20)
+        for _ in range(reps if p in shaped else (4 if quick else 12)):
             W = datasets.random_world(rng, rng.randint(5, 8))
+            ints = (0, 1) if rng.random() < 0.5 else (0, 1, 1, 2)
             for o in W["objs"]:
-                o["f"]["n"], o["f"]["m"] = datasets.iv(rng.choice((0, 1))), datasets.iv(rng.choice((0, 1)))
+                o["f"]["n"], o["f"]["m"] = datasets.iv(rng.choice(ints)), datasets.iv(rng.choice(ints))
             n = len(W["objs"])
-            doms = [rng.sample(range(1, n + 1), k) for k in (rng.randint(1, 2), rng.randint(3, 4), rng.randint(2, 3))]
+            if rng.random() < 0.5:
+                doms = [rng.sample(range(1, n + 1), k) for k in (rng.randint(1, 2), rng.randint(3, 4), rng.randint(2, 3))]
+            else:
+                doms = [rng.sample(range(1, n + 1), rng.randint(1, 4)) for _ in range(3)]
             add((W, mk_query(p, doms, declare="random")))
     return rng.sample(part, min(len(part), 300)) if quick else part
-
 
 
 # ---------------------------------------------------------------------- C02
@@ -988,7 +1032,7 @@ def check_C05(tier, seed, extra_programs=None):
     # two-variable programs and for and_/or_ trees over three independent variables with the descent the code has now
     # (every matching branch); with the descent it had before "fix: IndexedCache.retrieve ..." TLC finds the programs
     # that lost rows (the deviation must break the obligation, else the repair is mis-recorded)
-    b3 = dict(MaxNot=1, NeedNot=False, AndLeftTrueNeedsFalseSet=True, ForAllKeepsConditionVars=True, ReplayLeavesOutRepeats=True)
+    b3 = dict(CODE, MaxNot=1, NeedNot=False)
     run.mc("MechCheck", "b3-two-variables", constants=dict(b3, G="G12", NV=2, LeafLimit=8 if quick else 16, MaxLeaves=2,
                                                             PreferWildcardB3=False), invariants=("Mech3EqualsSem",))
     run.mc("MechCheck", "b3-three-variables", constants=dict(b3, G="G1x", NV=3, LeafLimit=6, MaxLeaves=3, MaxNot=0,
@@ -1005,6 +1049,22 @@ def check_C05(tier, seed, extra_programs=None):
     run.mc("MechCheck", "b3-replay-before-the-repair", constants=dict(b3, G="G3w", NV=3, LeafLimit=4, MaxLeaves=4, MaxNot=0,
                                                                        PreferWildcardB3=False, ReplayLeavesOutRepeats=False),
            invariants=("Mech3EqualsSem",), expect_violation="Mech3EqualsSem", count=False)
+    # the conjunctions of two disjunctions over the whole G3w vocabulary (grammar G3ws; variable sets {1,2}, {1,3}, {1},
+    # {1,3}, {2,3}, {2}, {3}, {1,2}): holds with the code as it is now; before "fix: a disjunction did not cache ..." and
+    # before "fix: results of a right operand that differ in a variable of the left operand ..." TLC finds the programs
+    # that lose a row with caching enabled (both were first derived this way)
+    run.mc("MechCheck", "b3-two-disjunctions", constants=dict(b3, G="G3ws", NV=3, LeafLimit=6 if quick else 8, MaxLeaves=4, MaxNot=0),
+           invariants=("Mech3EqualsSem",))
+    # (the code before the first of the two repairs had both switches off; with the second repair in place the first one is
+    # not needed for this family any more - it still closes the hole in the disjunction's own cache)
+    for name, off in (("b3-before-both-repairs", ("ElseIfStoresDuplicates", "RightKeepsLeftVars")),
+                      ("b3-right-operand-before-the-repair", ("RightKeepsLeftVars",))):
+        run.mc("MechCheck", name, constants=dict(b3, G="G3ws", NV=3, LeafLimit=8, MaxLeaves=4, MaxNot=0, **{k: False for k in off}),
+               invariants=("Mech3EqualsSem",), expect_violation="Mech3EqualsSem", count=False)
+    if not quick:
+        # every and_/or_ tree of up to four of the first six leaves
+        run.mc("MechCheck", "b3-partial-bindings-six-leaves", constants=dict(b3, G="G3w", NV=3, LeafLimit=6, MaxLeaves=4, MaxNot=0),
+               invariants=("Mech3EqualsSem",))
     for nv in (1, 2, 3):
         progs = _programs(run, nv, quick, sim_quick=500, sim_full=8000, leaf_quick=10 if nv < 3 else 8,
                           leaf_full=30 if nv == 1 else (24 if nv == 2 else 16))
@@ -1176,7 +1236,7 @@ def check_C10(tier, seed):
         # Layer B, stage B4: the mechanism of for_all (per universal value: evaluate, complete, project, de-duplicate,
         # intersect, early exit) yields the denotation's rows on first evaluation and re-evaluation; before
         # "fix: for_all lost solutions ..." it did not (second free variable under the quantifier)
-        b4 = dict(MaxLeaves=2, MaxNot=1, NeedNot=False, AndLeftTrueNeedsFalseSet=True, PreferWildcardB3=False, ReplayLeavesOutRepeats=True)
+        b4 = dict({k: v for k, v in CODE.items() if k != "ForAllKeepsConditionVars"}, MaxLeaves=2, MaxNot=1, NeedNot=False)
         run.mc("MechCheck", "b4-for_all", constants=dict(b4, G="G3", NV=2, LeafLimit=4 if quick else 12, ForAllKeepsConditionVars=True),
                invariants=("Mech4EqualsSem",))
         run.mc("MechCheck", "b4-second-free-variable", constants=dict(b4, G="G3y", NV=3, LeafLimit=3 if quick else 8,
